@@ -1200,6 +1200,17 @@ func dkgEngine(workdir string) {
 				VerificationVector: [][]byte{other.GetPublicKey().Serialize(), other2.GetPublicKey().Serialize()}}
 			_, err := in.handler.Contribute(callerCtx(hs(f[2])), wire(req, &pb.ContributeRequest{}))
 			res = errClassH(err)
+		// peerscfg <hex endpoint>,<hex endpoint>,…: is this peer table (ids 1, 2, … in the order given) accepted by the peers service?
+		case "peerscfg":
+			pm := map[uint64]string{}
+			for i, h := range strings.Split(f[1], ",") {
+				pm[uint64(i+1)] = unhexStr(h)
+			}
+			if _, err := staticpeers.New(context.Background(), staticpeers.WithPeers(pm)); err != nil {
+				res = "E:refused"
+			} else {
+				res = "ok"
+			}
 		// hcontributev <inst> <asker id> <account>: a VALID contribution (computed by a scratch process of the asker for this
 		// account, threshold n/2+1) delivered to the instance's receiver handler under the asker's name
 		case "hcontributev":
